@@ -69,6 +69,9 @@ func zzBlobFiemap(fd uintptr, start, length uint64, size uint32) ([]fibmap.Exten
 		return nil, syscall.EBADF
 	}
 	var out []fibmap.Extent
+	if size >= 1024 {
+		size = size / 1024 // scaled extent batch: see the E-file model (zzExtentBatch)
+	}
 	last := -1
 	for b := 0; b < f.blocks; b++ {
 		if f.present[b] {
